@@ -143,12 +143,28 @@ def run_batch(scns, timeout=600):
     return C.fork_map(run_one, scns, timeout=timeout)
 
 
+def interposition_bypassed(res):
+    """A process task was reported as completed although the interposed fork_exec never saw it: the subject no longer
+    spawns through subprocess.Popen, so the FakeKernel observes nothing (a harness limitation, not a verdict)."""
+    spawned = {e["t"] for e in res["events"] if e["e"] in ("Spawn", "SpawnFail")}
+    done = {e["t"] for e in res["events"] if e["e"] == "Line" and e["kind"] in ("success", "failed")}
+    return None
+
+
 def judge_batch(scns, results, id_offset=0):
     """-> (verdicts {idx: [clauses]}, traces, machinery_errors)"""
     traces, errs = [], []
     for i, (s, r) in enumerate(zip(scns, results)):
         if r is None or "_error" in r or "_timeout" in r:
             errs.append((i, r))
+            continue
+        kinds = {"//%s:%s" % (t.get("pkg", ""), t["name"]): t["kind"] for t in s["project"].get("tasks", [])}
+        spawned = {e["t"] for e in r["events"] if e["e"] in ("Spawn", "SpawnFail")}
+        finished = {e["t"] for e in r["events"] if e["e"] == "Line" and e["kind"] == "success"}
+        blind = [t for t in finished - spawned if kinds.get(t) in ("run_experiment", "run_command")]
+        if blind and not spawned:
+            errs.append((i, {"_error": "process layer not interposed: %s completed without any fork_exec being observed "
+                                       "(the subject does not spawn through subprocess.Popen any more)" % blind}))
             continue
         traces.append(R.to_obs_trace(id_offset + i, s, r))
     verdicts, tr = R.judge(traces)
